@@ -6,6 +6,7 @@ from ..env import gfapy, GfapyError
 from ..runner import Part, Violation
 
 ID = "C19"
+ATHERIS = ['clone']  # parts also driven by libFuzzer in the thorough tier (vf/runner.py: all_parts)
 RULE = ("every line of a generated GFA1/GFA2 document, stand-alone (gfapy.Line) and connected inside a Gfa "
         "(including the merged header), vlevel 0-3, is cloned; oracle: clone not connected, same written form, "
         "== original (also for the placeholder lines of the document added without its S lines: the clone is a placeholder "
